@@ -788,6 +788,8 @@ func (g *generator) enterNextFinallyFrame() (canContinue bool) {
 			vm.throw(ex)
 			return true
 		}
+		// closing iterators may have run script code that grew (reallocated) the try stack
+		tf = &vm.tryStack[len(vm.tryStack)-1]
 		if tf.finallyPos >= 0 {
 			vm.sp = int(tf.sp)
 			vm.stash = tf.stash
